@@ -346,6 +346,10 @@ def run_accept(case):
     u0 = np.array([[0.4]])
     z = 0.35
     deltas = [(-np.inf, 0.0), (-30.0, 0.0), (-1.0, 0.0), (0.0, 0.0), (1.0, 0.0), (30.0, 0.0), (-np.inf, -np.inf), (0.0, -np.inf)]  # (logL', logL)
+    # the same differences on top of a large common offset (a likelihood with an additive constant of -1e6 .. 1e9; all values exactly representable):
+    # the acceptance probability depends on the difference only
+    for off in (-1e6, 1e6, -1e9, 3e4):
+        deltas += [(off + dl, off) for dl in (-8.0, -1.0, -0.125, 0.0, 0.125, 1.0, 8.0)]
     for (l1, l0) in deltas:
         for beta in (1e-3, 0.1, 0.5, 1.0):
             for mode in ("alpha", "below", "above"):
